@@ -110,8 +110,10 @@ inductive JoinResult
   | timeout      -- PhaseExecutionOutcome(None); the thread is killed / abandoned
 deriving DecidableEq, Repr
 
-/-- `tie`: at an instant at which the join times out and the body ends simultaneously, who is scheduled first -/
-def joinLoop (fuel : Nat) (now deadline interval : Nat) (d : Option Nat) (tie : Bool) : JoinResult × Nat :=
+/-- `h`: how long the phase thread stays alive after its body returned and its outcome was stored (exception /
+    finish handlers, logging, profiler); `tie`: at an instant at which the join times out and the thread event
+    happens simultaneously, who is scheduled first -/
+def joinLoop (fuel : Nat) (now deadline interval : Nat) (d : Option Nat) (h : Nat) (tie : Bool) : JoinResult × Nat :=
   match fuel with
   | 0 => (.timeout, now)
   | fuel + 1 =>
@@ -119,18 +121,19 @@ def joinLoop (fuel : Nat) (now deadline interval : Nat) (d : Option Nat) (tie : 
       let wake := now + interval
       match d with
       | some dv =>
-        if dv < wake ∨ (dv = wake ∧ tie = true) then (.own, max now dv)
-        else joinLoop fuel wake deadline interval d tie
-      | none => joinLoop fuel wake deadline interval d tie
+        -- join() returns early when the thread exits, at dv + h
+        if dv + h < wake ∨ (dv + h = wake ∧ tie = true) then (.own, max now (dv + h))
+        else joinLoop fuel wake deadline interval d h tie
+      | none => joinLoop fuel wake deadline interval d h tie
     else
-      -- loop left: is there a recorded outcome?
+      -- loop left: is there a recorded outcome? (checked BEFORE is_alive)
       match d with
       | some dv => if dv < now ∨ (dv = now ∧ tie = true) then (.own, now) else (.timeout, now)
       | none => (.timeout, now)
 
 /-- `join_or_die` for a phase with `timeout_s` (or the default), started at time 0 -/
-def joinOrDie (timeout interval : Nat) (d : Option Nat) (tie : Bool) : JoinResult × Nat :=
-  joinLoop (timeout + 2) 0 timeout interval d tie
+def joinOrDie (timeout interval : Nat) (d : Option Nat) (h : Nat) (tie : Bool) : JoinResult × Nat :=
+  joinLoop (timeout + 2) 0 timeout interval d h tie
 
 def effectiveTimeoutS (timeoutS : Option Nat) : Nat := timeoutS.getD OpenHTF.Gen.c12_defaultPhaseTimeoutS
 
